@@ -160,10 +160,12 @@ struct Handle {
   bool shared = false;       // created in setup, read-only for tasks
 };
 
+enum LeakScope { LEAKS_ALL = 0, LEAKS_CRYSTAL_OPS = 1, LEAKS_NONE = 2 };
+
 struct ExecHooks {
   bool deep_crystal_checks = false;   // C14 oracle after every op
   bool purity_monitors = false;       // C16 oracle 2 after every op
-  bool check_leaks = true;
+  int leak_scope = LEAKS_ALL;         // which leftover blocks this engine's property is about
 };
 
 struct Exec {
@@ -182,7 +184,7 @@ struct Exec {
   Handle* find(int id);
 };
 
-void final_leak_check(std::vector<Exec*>& execs);
+void final_leak_check(std::vector<Exec*>& execs, int scope = LEAKS_ALL);
 void init_builtin_model(ArrayModel& m);
 
 }  // namespace xs
